@@ -350,12 +350,11 @@ def str_eq(a, b, ctx=None):
     if ctx is not None and ctx.goal_mode:
         sk = ctx.fresh("sk_pos")
         return z3.And(a.length == b.length, z3.Implies(z3.And(sk >= 0, sk < a.length), a.at(sk) == b.at(sk)))
-    if ctx is not None and (getattr(ctx, "assume_mode", False) or getattr(ctx, "hyp_mode", False)):
-        # as a hypothesis the pointwise fact is a universally quantified formula (array-property fragment)
-        i = z3.Int("q_i")
-        body = z3.Implies(z3.And(i >= 0, i < a.length), a.at(i) == b.at(i))
-        return z3.And(a.length == b.length, z3.ForAll([i], body))
-    raise Unsupported("equality of two strings of unknown length")
+    # everywhere else (hypotheses, branch conditions in the code, negated positions) the pointwise fact is a
+    # universally quantified formula of the array-property fragment; the solver skolemises it where it is negated
+    i = z3.Int("q_i")
+    body = z3.Implies(z3.And(i >= 0, i < a.length), a.at(i) == b.at(i))
+    return z3.And(a.length == b.length, z3.ForAll([i], body))
 
 
 MEMBER = z3.Function("intset_member", INT, INT, BOOL)
@@ -1275,7 +1274,13 @@ class Exec(object):
             self.assign(g.target, x)
             ok = True
             for c in g.ifs:
-                if not self.cond(self.eval(c)):
+                cv = self.cond(self.eval(c))
+                if not isinstance(cv, bool):
+                    # a filter in a specification expression: mostly the path has already decided it (the code
+                    # branched on the same fact); a filter that is still open would make the list's length symbolic
+                    # -- is made a case distinction of the proof (the path forks on it like on a branch of the code)
+                    cv = self.ctx.branch(cv)
+                if not cv:
                     ok = False
                     break
             if ok:
